@@ -23,7 +23,7 @@ CONSTANTS Configs,      \* set of <<InitialDelay, MaxDelay, MaxPendingEvents (0 
           AdvIdleOnly,  \* TRUE: the clock moves only when nothing else can (liveness configurations)
           UseMonitor,   \* FALSE: the monitor is switched off (liveness configurations)
           CloseFix,     \* FALSE: Close as written (holds the lock across wg.Wait); TRUE: repaired
-          Variant       \* "ok" | "capeq" | "skipfire" | "close2early": known-bad variants (non-vacuity)
+          Variant       \* "ok" | "capeq" | "skipfire" | "close2early" | "alwaysdouble": known-bad variants (non-vacuity)
 
 Gs == 1..Len(AddProgs)
 Ks == 1..NClosers
@@ -31,6 +31,7 @@ TotalAdds == LET RECURSIVE Sum(_) Sum(i) == IF i = 0 THEN 0 ELSE AddProgs[i] + S
 
 VARIABLES cfg, kind, now, lock, closed, closeCh, cancelled, wg,
           pendSet, hasTimer, tstate, deadline, curDur,
+          bf,            \* backoffFactor (only tracked by the known-bad variant "alwaysdouble", otherwise constantly 1)
           tokS,          \* token sender goroutines alive
           sigS,          \* signal sender goroutines alive: each is the set of Adds its signal covers
           rpc, tch,
@@ -39,7 +40,7 @@ VARIABLES cfg, kind, now, lock, closed, closeCh, cancelled, wg,
           cons,          \* "ready" (in its receive) | "parked" (slow consumer, not receiving)
           counted, cov,  \* history: Adds that took effect / covered by a delivered signal
           c              \* the contract monitor
-vars == <<cfg, kind, now, lock, closed, closeCh, cancelled, wg, pendSet, hasTimer, tstate, deadline, curDur, tokS, sigS,
+vars == <<cfg, kind, now, lock, closed, closeCh, cancelled, wg, pendSet, hasTimer, tstate, deadline, curDur, bf, tokS, sigS,
           rpc, tch, apc, aid, aleft, nextId, cpc, chelp, cons, counted, cov, c>>
 
 I == cfg[1]
@@ -49,7 +50,7 @@ Cap == cfg[3]
 Obs(e) == IF UseMonitor THEN c' = CNext(c, e) ELSE UNCHANGED c
 
 Init == /\ cfg \in Configs /\ kind \in ConsKinds /\ now = 0 /\ lock = 0 /\ closed = FALSE /\ closeCh = FALSE /\ cancelled = FALSE
-        /\ wg = 1 /\ pendSet = {} /\ hasTimer = FALSE /\ tstate = "none" /\ deadline = 0 /\ curDur = cfg[1]
+        /\ wg = 1 /\ pendSet = {} /\ hasTimer = FALSE /\ tstate = "none" /\ deadline = 0 /\ curDur = cfg[1] /\ bf = 1
         /\ tokS = 0 /\ sigS = {} /\ rpc = "top" /\ tch = FALSE
         /\ apc = [g \in Gs |-> "idle"] /\ aid = [g \in Gs |-> 0] /\ aleft = [g \in Gs |-> AddProgs[g]] /\ nextId = 1
         /\ cpc = [k \in Ks |-> "idle"] /\ chelp = [k \in Ks |-> 0]
@@ -81,7 +82,7 @@ AddCall(g) == /\ apc[g] = "idle" /\ aleft[g] > 0 /\ ~ObsPending
               /\ (AdvIdleOnly => now + M <= MaxNow)
               /\ apc' = [apc EXCEPT ![g] = "called"] /\ aid' = [aid EXCEPT ![g] = nextId] /\ nextId' = nextId + 1
               /\ Obs([ev |-> "add_call", n |-> nextId])
-              /\ UNCHANGED <<cfg, kind, now, lock, closed, closeCh, cancelled, wg, pendSet, hasTimer, tstate, deadline, curDur, tokS, sigS,
+              /\ UNCHANGED <<cfg, kind, now, lock, closed, closeCh, cancelled, wg, pendSet, hasTimer, tstate, deadline, curDur, bf, tokS, sigS,
                              rpc, tch, aleft, cpc, chelp, cons, counted, cov>>
 AddBody(g) == /\ apc[g] = "called" /\ lock = 0
               /\ IF CloseFix /\ closed
@@ -89,54 +90,60 @@ AddBody(g) == /\ apc[g] = "called" /\ lock = 0
                    ELSE /\ pendSet' = pendSet \cup {aid[g]} /\ counted' = counted \cup {aid[g]}
                         /\ wg' = wg + 1 /\ tokS' = tokS + 1
               /\ apc' = [apc EXCEPT ![g] = "body"]
-              /\ UNCHANGED <<cfg, kind, now, lock, closed, closeCh, cancelled, hasTimer, tstate, deadline, curDur, sigS,
+              /\ UNCHANGED <<cfg, kind, now, lock, closed, closeCh, cancelled, hasTimer, tstate, deadline, curDur, bf, sigS,
                              rpc, tch, aid, aleft, nextId, cpc, chelp, cons, cov, c>>
 AddRet(g) == /\ apc[g] = "body"
              /\ apc' = [apc EXCEPT ![g] = "idle"] /\ aleft' = [aleft EXCEPT ![g] = @ - 1]
              /\ Obs([ev |-> "add_ret", n |-> aid[g]])
-             /\ UNCHANGED <<cfg, kind, now, lock, closed, closeCh, cancelled, wg, pendSet, hasTimer, tstate, deadline, curDur, tokS, sigS,
+             /\ UNCHANGED <<cfg, kind, now, lock, closed, closeCh, cancelled, wg, pendSet, hasTimer, tstate, deadline, curDur, bf, tokS, sigS,
                             rpc, tch, aid, nextId, cpc, chelp, cons, counted, cov>>
 (* a token sender gives up once closeCh is closed *)
 TokExit == /\ tokS > 0 /\ closeCh /\ tokS' = tokS - 1 /\ wg' = wg - 1
-           /\ UNCHANGED <<cfg, kind, now, lock, closed, closeCh, cancelled, pendSet, hasTimer, tstate, deadline, curDur, sigS,
+           /\ UNCHANGED <<cfg, kind, now, lock, closed, closeCh, cancelled, pendSet, hasTimer, tstate, deadline, curDur, bf, sigS,
                           rpc, tch, apc, aid, aleft, nextId, cpc, chelp, cons, counted, cov, c>>
 
 (* ---------------- Run - coalescing.go:106-147 ---------------- *)
 RunTop == /\ rpc = "top" /\ lock = 0 /\ tch' = hasTimer /\ rpc' = "select"
-          /\ UNCHANGED <<cfg, kind, now, lock, closed, closeCh, cancelled, wg, pendSet, hasTimer, tstate, deadline, curDur, tokS, sigS,
+          /\ UNCHANGED <<cfg, kind, now, lock, closed, closeCh, cancelled, wg, pendSet, hasTimer, tstate, deadline, curDur, bf, tokS, sigS,
                          apc, aid, aleft, nextId, cpc, chelp, cons, counted, cov, c>>
 RunSelect == /\ rpc = "select"
              /\ \/ /\ (cancelled \/ closeCh) /\ rpc' = "ret" /\ UNCHANGED <<tokS, wg, tstate>>
                 \/ /\ tokS > 0 /\ tokS' = tokS - 1 /\ wg' = wg - 1 /\ rpc' = "input" /\ UNCHANGED tstate
                 \/ /\ tch /\ tstate = "fired" /\ tstate' = "taken" /\ rpc' = "timer" /\ UNCHANGED <<tokS, wg>>
-             /\ UNCHANGED <<cfg, kind, now, lock, closed, closeCh, cancelled, pendSet, hasTimer, deadline, curDur, sigS,
+             /\ UNCHANGED <<cfg, kind, now, lock, closed, closeCh, cancelled, pendSet, hasTimer, deadline, curDur, bf, sigS,
                             tch, apc, aid, aleft, nextId, cpc, chelp, cons, counted, cov, c>>
 (* fireEvent: pending is zeroed and a sender goroutine is spawned *)
 FireSig == IF pendSet # {} /\ ~(Variant = "skipfire" /\ sigS # {}) THEN sigS \cup {pendSet} ELSE sigS
 FireWg == IF pendSet # {} /\ ~(Variant = "skipfire" /\ sigS # {}) THEN wg + 1 ELSE wg
+(* width of backoffFactor in the "alwaysdouble" variant: 2 bits, so the third doubling wraps to 0 (64 bits in the code) *)
+FactorRange == 4
 CapReached == Cap > 0 /\ (IF Variant = "capeq" THEN Cardinality(pendSet) = Cap ELSE Cardinality(pendSet) >= Cap)
 RunInput == /\ rpc = "input" /\ lock = 0 /\ rpc' = "top"
             /\ IF ~hasTimer
                  THEN /\ hasTimer' = TRUE /\ tstate' = "armed" /\ deadline' = now + I
-                      /\ sigS' = FireSig /\ wg' = FireWg /\ pendSet' = {} /\ UNCHANGED curDur
+                      /\ sigS' = FireSig /\ wg' = FireWg /\ pendSet' = {} /\ UNCHANGED <<curDur, bf>>
                  ELSE IF CapReached
-                   THEN /\ sigS' = FireSig /\ wg' = FireWg /\ pendSet' = {} /\ UNCHANGED <<hasTimer, tstate, deadline, curDur>>
-                   ELSE /\ curDur' = (IF curDur < M THEN Min2(2 * curDur, M) ELSE curDur)
+                   THEN /\ sigS' = FireSig /\ wg' = FireWg /\ pendSet' = {} /\ UNCHANGED <<hasTimer, tstate, deadline, curDur, bf>>
+                   ELSE /\ IF Variant = "alwaysdouble"
+                             (* known-bad: the factor is doubled on every Add in a machine integer and wraps *)
+                             THEN /\ bf' = (2 * bf) % FactorRange /\ curDur' = Min2(I * bf', M)
+                             (* as written: doubled only while below MaxDelay, then capped *)
+                             ELSE /\ curDur' = (IF curDur < M THEN Min2(2 * curDur, M) ELSE curDur) /\ UNCHANGED bf
                         /\ tstate' = "armed" /\ deadline' = now + curDur'
                         /\ UNCHANGED <<hasTimer, sigS, wg, pendSet>>
             /\ UNCHANGED <<cfg, kind, now, lock, closed, closeCh, cancelled, tokS,
                            tch, apc, aid, aleft, nextId, cpc, chelp, cons, counted, cov, c>>
 RunTimer == /\ rpc = "timer" /\ lock = 0 /\ rpc' = "top"
             /\ sigS' = FireSig /\ wg' = FireWg
-            /\ pendSet' = {} /\ hasTimer' = FALSE /\ tstate' = "none" /\ deadline' = 0 /\ curDur' = I
+            /\ pendSet' = {} /\ hasTimer' = FALSE /\ tstate' = "none" /\ deadline' = 0 /\ curDur' = I /\ bf' = 1
             /\ UNCHANGED <<cfg, kind, now, lock, closed, closeCh, cancelled, tokS,
                            tch, apc, aid, aleft, nextId, cpc, chelp, cons, counted, cov, c>>
 (* return: deferred cancel() and wg.Done(); then the caller sees Run return *)
 RunExit == /\ rpc = "ret" /\ rpc' = "exited" /\ wg' = wg - 1
-           /\ UNCHANGED <<cfg, kind, now, lock, closed, closeCh, cancelled, pendSet, hasTimer, tstate, deadline, curDur, tokS, sigS,
+           /\ UNCHANGED <<cfg, kind, now, lock, closed, closeCh, cancelled, pendSet, hasTimer, tstate, deadline, curDur, bf, tokS, sigS,
                           tch, apc, aid, aleft, nextId, cpc, chelp, cons, counted, cov, c>>
 RunRet == /\ rpc = "exited" /\ rpc' = "done" /\ Obs([ev |-> "run_ret"])
-          /\ UNCHANGED <<cfg, kind, now, lock, closed, closeCh, cancelled, wg, pendSet, hasTimer, tstate, deadline, curDur, tokS, sigS,
+          /\ UNCHANGED <<cfg, kind, now, lock, closed, closeCh, cancelled, wg, pendSet, hasTimer, tstate, deadline, curDur, bf, tokS, sigS,
                          tch, apc, aid, aleft, nextId, cpc, chelp, cons, counted, cov>>
 
 (* ---------------- signal senders - coalescing.go:203-210 ---------------- *)
@@ -144,39 +151,39 @@ Deliver(x) == /\ x \in sigS /\ cons = "ready"
               /\ sigS' = sigS \ {x} /\ wg' = wg - 1 /\ cov' = cov \cup x
               /\ cons' = (IF kind = "slow" THEN "parked" ELSE "ready")
               /\ Obs([ev |-> "signal"])
-              /\ UNCHANGED <<cfg, kind, now, lock, closed, closeCh, cancelled, pendSet, hasTimer, tstate, deadline, curDur, tokS,
+              /\ UNCHANGED <<cfg, kind, now, lock, closed, closeCh, cancelled, pendSet, hasTimer, tstate, deadline, curDur, bf, tokS,
                              rpc, tch, apc, aid, aleft, nextId, cpc, chelp, counted>>
 SigExit(x) == /\ x \in sigS /\ RctxDone /\ sigS' = sigS \ {x} /\ wg' = wg - 1
-              /\ UNCHANGED <<cfg, kind, now, lock, closed, closeCh, cancelled, pendSet, hasTimer, tstate, deadline, curDur, tokS,
+              /\ UNCHANGED <<cfg, kind, now, lock, closed, closeCh, cancelled, pendSet, hasTimer, tstate, deadline, curDur, bf, tokS,
                              rpc, tch, apc, aid, aleft, nextId, cpc, chelp, cons, counted, cov, c>>
 
 (* ---------------- Close - coalescing.go:244-255 ---------------- *)
 CloseCall(k) == /\ cpc[k] = "idle" /\ ~ObsPending /\ cpc' = [cpc EXCEPT ![k] = "called"] /\ Obs([ev |-> "close_call"])
-                /\ UNCHANGED <<cfg, kind, now, lock, closed, closeCh, cancelled, wg, pendSet, hasTimer, tstate, deadline, curDur, tokS, sigS,
+                /\ UNCHANGED <<cfg, kind, now, lock, closed, closeCh, cancelled, wg, pendSet, hasTimer, tstate, deadline, curDur, bf, tokS, sigS,
                                rpc, tch, apc, aid, aleft, nextId, chelp, cons, counted, cov>>
 (* as written: CAS + close(closeCh); then Lock; wg.Wait; Unlock *)
 CloseSignal(k) == /\ ~CloseFix /\ cpc[k] = "called"
                   /\ IF Variant = "close2early" /\ closed
                        THEN cpc' = [cpc EXCEPT ![k] = "unlocked"] /\ chelp' = [chelp EXCEPT ![k] = Helpers] /\ UNCHANGED <<closed, closeCh>>
                        ELSE closed' = TRUE /\ closeCh' = TRUE /\ cpc' = [cpc EXCEPT ![k] = "beforeLock"] /\ UNCHANGED chelp
-                  /\ UNCHANGED <<cfg, kind, now, lock, cancelled, wg, pendSet, hasTimer, tstate, deadline, curDur, tokS, sigS,
+                  /\ UNCHANGED <<cfg, kind, now, lock, cancelled, wg, pendSet, hasTimer, tstate, deadline, curDur, bf, tokS, sigS,
                                  rpc, tch, apc, aid, aleft, nextId, cons, counted, cov, c>>
 CloseLock(k) == /\ ~CloseFix /\ cpc[k] = "beforeLock" /\ lock = 0 /\ lock' = k /\ cpc' = [cpc EXCEPT ![k] = "wait"]
-                /\ UNCHANGED <<cfg, kind, now, closed, closeCh, cancelled, wg, pendSet, hasTimer, tstate, deadline, curDur, tokS, sigS,
+                /\ UNCHANGED <<cfg, kind, now, closed, closeCh, cancelled, wg, pendSet, hasTimer, tstate, deadline, curDur, bf, tokS, sigS,
                                rpc, tch, apc, aid, aleft, nextId, chelp, cons, counted, cov, c>>
 (* repaired: closed/closeCh inside a short critical section, wg.Wait outside the lock *)
 CloseCrit(k) == /\ CloseFix /\ cpc[k] = "called" /\ lock = 0
                 /\ IF Variant = "close2early" /\ closed
                      THEN cpc' = [cpc EXCEPT ![k] = "unlocked"] /\ chelp' = [chelp EXCEPT ![k] = Helpers] /\ UNCHANGED <<closed, closeCh>>
                      ELSE closed' = TRUE /\ closeCh' = TRUE /\ cpc' = [cpc EXCEPT ![k] = "wait"] /\ UNCHANGED chelp
-                /\ UNCHANGED <<cfg, kind, now, lock, cancelled, wg, pendSet, hasTimer, tstate, deadline, curDur, tokS, sigS,
+                /\ UNCHANGED <<cfg, kind, now, lock, cancelled, wg, pendSet, hasTimer, tstate, deadline, curDur, bf, tokS, sigS,
                                rpc, tch, apc, aid, aleft, nextId, cons, counted, cov, c>>
 CloseWait(k) == /\ cpc[k] = "wait" /\ wg = 0
                 /\ lock' = (IF lock = k THEN 0 ELSE lock) /\ cpc' = [cpc EXCEPT ![k] = "unlocked"] /\ chelp' = [chelp EXCEPT ![k] = Helpers]
-                /\ UNCHANGED <<cfg, kind, now, closed, closeCh, cancelled, wg, pendSet, hasTimer, tstate, deadline, curDur, tokS, sigS,
+                /\ UNCHANGED <<cfg, kind, now, closed, closeCh, cancelled, wg, pendSet, hasTimer, tstate, deadline, curDur, bf, tokS, sigS,
                                rpc, tch, apc, aid, aleft, nextId, cons, counted, cov, c>>
 CloseRet(k) == /\ cpc[k] = "unlocked" /\ cpc' = [cpc EXCEPT ![k] = "done"] /\ Obs([ev |-> "close_ret", helpers |-> chelp[k]])
-               /\ UNCHANGED <<cfg, kind, now, lock, closed, closeCh, cancelled, wg, pendSet, hasTimer, tstate, deadline, curDur, tokS, sigS,
+               /\ UNCHANGED <<cfg, kind, now, lock, closed, closeCh, cancelled, wg, pendSet, hasTimer, tstate, deadline, curDur, bf, tokS, sigS,
                               rpc, tch, apc, aid, aleft, nextId, chelp, cons, counted, cov>>
 
 (* ---------------- environment ---------------- *)
@@ -189,23 +196,23 @@ AtRestDef == AtRest <=> ~ENABLED Internal
 AdvTo(t) == /\ now' = t
             /\ tstate' = (IF tstate = "armed" /\ deadline <= t THEN "fired" ELSE tstate)
             /\ Obs([ev |-> "adv", now |-> t])
-            /\ UNCHANGED <<cfg, kind, lock, closed, closeCh, cancelled, wg, pendSet, hasTimer, deadline, curDur, tokS, sigS,
+            /\ UNCHANGED <<cfg, kind, lock, closed, closeCh, cancelled, wg, pendSet, hasTimer, deadline, curDur, bf, tokS, sigS,
                            rpc, tch, apc, aid, aleft, nextId, cpc, chelp, cons, counted, cov>>
 Adv == /\ now < MaxNow /\ (AdvIdleOnly => AtRest) /\ ~ObsPending /\ AdvTo(now + 1)
 Cancel == /\ AllowCancel /\ ~cancelled /\ ~ObsPending /\ cancelled' = TRUE /\ Obs([ev |-> "cancel"])
-          /\ UNCHANGED <<cfg, kind, now, lock, closed, closeCh, wg, pendSet, hasTimer, tstate, deadline, curDur, tokS, sigS,
+          /\ UNCHANGED <<cfg, kind, now, lock, closed, closeCh, wg, pendSet, hasTimer, tstate, deadline, curDur, bf, tokS, sigS,
                          rpc, tch, apc, aid, aleft, nextId, cpc, chelp, cons, counted, cov>>
 Take == /\ cons = "parked" /\ ~ObsPending /\ cons' = "ready"
-        /\ UNCHANGED <<cfg, kind, now, lock, closed, closeCh, cancelled, wg, pendSet, hasTimer, tstate, deadline, curDur, tokS, sigS,
+        /\ UNCHANGED <<cfg, kind, now, lock, closed, closeCh, cancelled, wg, pendSet, hasTimer, tstate, deadline, curDur, bf, tokS, sigS,
                        rpc, tch, apc, aid, aleft, nextId, cpc, chelp, counted, cov, c>>
 (* observation points of the harness: nothing can move *)
 Quiescent == /\ UseMonitor /\ AtRest /\ InFlight = 0
              /\ c' = CNext(c, QuiescentEv) /\ c' # c
-             /\ UNCHANGED <<cfg, kind, now, lock, closed, closeCh, cancelled, wg, pendSet, hasTimer, tstate, deadline, curDur, tokS, sigS,
+             /\ UNCHANGED <<cfg, kind, now, lock, closed, closeCh, cancelled, wg, pendSet, hasTimer, tstate, deadline, curDur, bf, tokS, sigS,
                             rpc, tch, apc, aid, aleft, nextId, cpc, chelp, cons, counted, cov>>
 Stuck == /\ UseMonitor /\ AtRest /\ (InFlight > 0 \/ ((cancelled \/ closeCh) /\ rpc # "done"))
          /\ c' = CNext(c, StuckEv) /\ c' # c
-         /\ UNCHANGED <<cfg, kind, now, lock, closed, closeCh, cancelled, wg, pendSet, hasTimer, tstate, deadline, curDur, tokS, sigS,
+         /\ UNCHANGED <<cfg, kind, now, lock, closed, closeCh, cancelled, wg, pendSet, hasTimer, tstate, deadline, curDur, bf, tokS, sigS,
                         rpc, tch, apc, aid, aleft, nextId, cpc, chelp, cons, counted, cov>>
 
 Env == Adv \/ Cancel \/ Take \/ Quiescent \/ Stuck \/ \E g \in Gs : AddCall(g) \/ \E k \in Ks : CloseCall(k)
@@ -223,7 +230,7 @@ CloseWaited == \A k \in Ks : cpc[k] \in {"unlocked", "done"} => chelp[k] = 0
 (* at rest, before cancel/Close, with the consumer receiving and no window open, every Add is covered *)
 NoLostAdd == (AtRest /\ InFlight = 0 /\ ~cancelled /\ ~closeCh /\ cons = "ready" /\ ~hasTimer) => counted \subseteq cov
 TypeOK == /\ wg >= 0 /\ tokS >= 0 /\ pendSet \subseteq counted /\ (hasTimer <=> tstate # "none")
-          /\ curDur >= I /\ curDur <= M
+          /\ (Variant # "alwaysdouble" => curDur >= I /\ curDur <= M /\ bf = 1)
 
 CloseReturns == \A k \in Ks : (cpc[k] = "called") ~> (cpc[k] = "done")
 AddsReturn == \A g \in Gs : (apc[g] = "called") ~> (apc[g] = "idle")
